@@ -695,6 +695,68 @@ def overfull_design_collapses(replay=None):
                 bound="10 seeds")
 
 
+def _symmetric_designs():
+    """given-centres starts (0 trials) that are symmetric about an axis of the die: the centroid step can put every node on the same coordinate"""
+    out = []
+    for cols, rows, W, H in [(2, 2, 4.0, 4.0), (2, 3, 4.0, 6.0), (2, 4, 6.0, 8.0), (3, 2, 6.0, 4.0), (2, 2, 10.0, 3.0)]:
+        for area in (1.0, 0.49):
+            names, mods = [], {}
+            for j in range(rows):
+                for i in range(cols):
+                    nm = f"M{j}_{i}"
+                    names.append((nm, i, j))
+                    mods[nm] = {"area": area, "center": [W * (2 * i + 1) / (2 * cols), H * (2 * j + 1) / (2 * rows)]}
+            for style in ("ring", "rows_and_columns", "every_net_crosses_the_axis"):
+                if style == "every_net_crosses_the_axis" and cols != 2:
+                    continue        # a middle column would be on no net: outside the property (every module is on some net)
+                if style == "ring":
+                    order = [n for n, i, j in names if i == 0] + [n for n, i, j in reversed(names) if i == cols - 1] + \
+                            [n for n, i, j in names if 0 < i < cols - 1]
+                    nets = [[order[k], order[(k + 1) % len(order)]] for k in range(len(order))]
+                elif style == "rows_and_columns":
+                    nets = [[n for n, i, j in names if j == jj] for jj in range(rows)] + [[n for n, i, j in names if i == ii] for ii in range(cols)]
+                else:
+                    nets = [[a, b] for a, i, j in names if i == 0 for b, i2, j2 in names if i2 == cols - 1]
+                out.append((W, H, {"Modules": mods, "Nets": nets}, f"{cols}x{rows} {style} area {area}"))
+    return out
+
+
+@contract(P, kind="enum", functions=[SPM + "spectral_layout", A + "spectral_layout_die", A + "normalize"],
+          scope="bounded: 28 designs whose given centres are symmetric about an axis of the die, 0 trials (given centres) and 1 / 3 trials")
+def symmetric_given_centres(replay=None):
+    """added after seed C14-14 (normalisation moved before the 'all nodes in the same place' test): starts in which one centroid step puts all
+    movable nodes on the same coordinate are valid inputs; the placement must not stop on them"""
+    import json as _json
+    from frame.geometry.geometry import Shape
+    failures, evals = [], 0
+    designs = _symmetric_designs()
+    for k, (W, H, doc, what) in enumerate(designs):
+        if replay and k != replay["k"]:
+            continue
+        for mode in ([replay["mode"]] if replay else (0, 1, 3)):
+            Rectangle.undefine_epsilon()
+            sn = sp.Spectral(_json.dumps(doc, indent=1))
+            random.seed(11 + k)
+            evals += 1
+            try:
+                sn.spectral_layout(Shape(W, H), mode, False)
+            except Exception as e:  # noqa
+                failures.append(dict(clause="float.never_fails", k=k, mode=mode, design=what, die=[W, H], observed=f"{type(e).__name__}: {e}"))
+                continue
+            tol = 1e-9 * max(W, H)
+            for m in sn.modules:
+                r = _radius(m)
+                if m.center is None or not (r - tol <= m.center.x <= W - r + tol and r - tol <= m.center.y <= H - r + tol):
+                    failures.append(dict(clause="float.disc_of_every_movable_module_inside_the_die", k=k, mode=mode, design=what, die=[W, H], module=m.name,
+                                         centre=None if m.center is None else [m.center.x, m.center.y], radius=r))
+                    break
+    Rectangle.undefine_epsilon()
+    return dict(evaluations=evals, distinct_nontrivial=evals, exhaustive=False, failures=failures[:4],
+                rule="grids of 2-3 columns x 2-4 rows of equal soft modules centred on the lattice of the die (symmetric about both axes), nets as a ring, "
+                     "as rows and columns, or all crossing the vertical axis; placed from the given centres (0 trials) and with 1 / 3 random trials",
+                samples=[designs[0][3]], bound=f"{len(designs)} designs x 3 modes")
+
+
 @contract(P, canary=True)
 def canary_normalize_keeps_every_entry_strictly_inside(S):
     """negative control: the limiting entry reaches its span, so 'strictly inside' must be refuted"""
